@@ -16,6 +16,7 @@ import (
 
 	mail "github.com/wneessen/go-mail"
 	"github.com/wneessen/go-mail/log"
+	"github.com/wneessen/go-mail/smtp"
 
 	"verif/internal/ev"
 	"verif/internal/gen"
@@ -35,6 +36,7 @@ type c16Case struct {
 	ExplicitOff bool   `json:"explicit_off"` // SetLogAuthData(false) called explicitly
 	TLS         bool   `json:"tls"`
 	WrongPass   bool   `json:"wrong_pass"`
+	Via         string `json:"via,omitempty"` // "" mail.Client | direct: smtp.Client with Auth as the first command (implicit EHLO inside Auth)
 }
 
 type capLogger struct {
@@ -157,26 +159,66 @@ func runC16Case(r *ev.Run, c c16Case) {
 	if c.OptIn {
 		opts = append(opts, mail.WithLogAuthData())
 	}
-	cl, err := mail.NewClient(netHost, opts...)
-	if err != nil {
-		r.HarnessError("C16 NewClient: " + err.Error())
-		return
-	}
-	if c.ExplicitOff {
-		cl.SetLogAuthData(false)
-	}
 	marker := fmt.Sprintf("marker%08x", mrand.Uint32())
-	msg, _ := simpleMsg("c16", marker+"@sender.example", []string{marker + "@rcpt.example"}, "quoted-printable", "body\r\n")
-	ctx, cancel := context.WithTimeout(context.Background(), 15*time.Second)
-	dialErr := cl.DialWithContext(ctx)
-	cancel()
-	var sendErr error
-	if dialErr == nil {
-		sendErr = cl.Send(msg)
-		_ = cl.Close()
+	if c.Via == "direct" {
+		// the smtp package used directly: Auth is the first command, so the EHLO is sent from inside Auth
+		conn, derr := farm.Dial(context.Background(), "tcp", "")
+		if derr != nil {
+			r.HarnessError(derr.Error())
+			return
+		}
+		_ = conn.SetDeadline(time.Now().Add(10 * time.Second))
+		sc, nerr := smtp.NewClient(conn, netHost)
+		if nerr != nil {
+			r.HarnessError("smtp.NewClient: " + nerr.Error())
+			return
+		}
+		sc.SetLogger(lg)
+		sc.SetDebugLog(true)
+		if c.OptIn {
+			sc.SetLogAuthData()
+		}
+		var a smtp.Auth
+		switch c.Mech {
+		case "PLAIN":
+			a = smtp.PlainAuth("", c.User, c.Pass, netHost, true)
+		case "LOGIN":
+			a = smtp.LoginAuth(c.User, c.Pass, netHost, true)
+		case "CRAM-MD5":
+			a = smtp.CRAMMD5Auth(c.User, c.Pass)
+		case "XOAUTH2":
+			a = smtp.XOAuth2Auth(c.User, c.Pass)
+		case "SCRAM-SHA-1":
+			a = smtp.ScramSHA1Auth(c.User, c.Pass)
+		default:
+			a = smtp.ScramSHA256Auth(c.User, c.Pass)
+		}
+		if aerr := sc.Auth(a); aerr == nil {
+			if sc.Mail(marker+"@sender.example") == nil {
+				_ = sc.Rcpt(marker + "@rcpt.example")
+			}
+			_ = sc.Quit()
+		}
+		_ = conn.Close()
+	} else {
+		cl, err := mail.NewClient(netHost, opts...)
+		if err != nil {
+			r.HarnessError("C16 NewClient: " + err.Error())
+			return
+		}
+		if c.ExplicitOff {
+			cl.SetLogAuthData(false)
+		}
+		msg, _ := simpleMsg("c16", marker+"@sender.example", []string{marker + "@rcpt.example"}, "quoted-printable", "body\r\n")
+		ctx, cancel := context.WithTimeout(context.Background(), 15*time.Second)
+		dialErr := cl.DialWithContext(ctx)
+		cancel()
+		if dialErr == nil {
+			_ = cl.Send(msg)
+			_ = cl.Close()
+		}
 	}
 	farm.Shutdown()
-	_ = sendErr
 	// collect the log text
 	var texts []string
 	if c.Logger == "custom" {
@@ -267,7 +309,10 @@ func runC16Case(r *ev.Run, c c16Case) {
 		}
 	}
 	r.Seen("mech_x_fault", c.Mech+"|"+faultName(c)+fmt.Sprint(c.FaultStep))
-	r.Eval(fmt.Sprintf("%s|%s|%d|%s|%t|%t|%t|%s", c.Mech, c.Fault, c.FaultStep, c.Logger, c.OptIn, c.TLS, c.WrongPass, c.Pass), true)
+	r.Eval(fmt.Sprintf("%s|%s|%d|%s|%t|%t|%t|%s|%s", c.Mech, c.Fault, c.FaultStep, c.Logger, c.OptIn, c.TLS, c.WrongPass, c.Pass, c.Via), true)
+	if c.Via == "direct" {
+		r.Count("runs_via_smtp_client_directly", 1)
+	}
 }
 
 func faultName(c c16Case) string {
@@ -314,6 +359,9 @@ func runC16(r *ev.Run, rep *ev.ReplayDoc) ev.Summary {
 					n++
 					rng := r.Rng("c16x", n)
 					c := c16Case{Mech: mech, User: "user-" + genSecret(rng)[:6], Pass: genSecret(rng), Fault: f, FaultStep: st, Logger: lgr, TLS: isPlus(mech) || n%5 == 0, ExplicitOff: n%4 == 0}
+					if !c.TLS && n%3 == 1 {
+						c.Via = "direct"
+					}
 					cases = append(cases, c)
 				}
 			}
@@ -333,6 +381,9 @@ func runC16(r *ev.Run, rep *ev.ReplayDoc) ev.Summary {
 		if rng.Intn(2) == 0 {
 			c.Fault = gen.Pick(rng, faults[1:])
 			c.FaultStep = rng.Intn(5)
+		}
+		if !c.TLS && rng.Intn(4) == 0 {
+			c.Via = "direct"
 		}
 		cases = append(cases, c)
 	}
